@@ -205,7 +205,7 @@ def run_into(v, pid, tier, seed):
     w = workdir(tag)
     tuftool = vlib.build_tuftool()
     g = model_check(w, tag, 3 if tier == "quick" else 4)
-    num, steps = (160, 6) if tier == "quick" else (1500, 7)
+    num, steps = (160, 6) if tier == "quick" else (600, 7)
     cases = generate(w, tag, seed, num, steps)
     cp, out = os.path.join(w, "cases.ndjson"), os.path.join(w, "out.ndjson")
     write_ndjson(cp, cases)
